@@ -268,7 +268,7 @@ def build_sto(flavour):
         "acquire-core-libs/src/acquire-device-hal/device/hal/storage.c",
         "acquire-core-libs/src/acquire-device-hal/device/hal/driver.c"]
     objs = b.objs(srcs) + b.objs([harness("sto_harness.cpp")])
-    return b.exe("sto_harness", objs, wrap("open", "pwrite", "close", "flock", "device_manager_get_driver"))
+    return b.exe("sto_harness", objs, wrap("open", "pwrite", "write", "close", "flock", "device_manager_get_driver"))
 
 
 def build_simcam(flavour, extra=()):
